@@ -33,7 +33,7 @@ type c01Model struct {
 	pid     int
 	// classes
 	wrapped, lateOK, lateMiss, dupOK, dupW, longRun int
-	log                                              []string
+	log                                             []string
 }
 
 func (s *c01Model) dropsBefore(e int) int {
@@ -147,162 +147,169 @@ var c01Rec = verifkit.New("TestVerif_C01_PacketmapModel",
 		"loss skips <=500, late arrivals and duplicates within 8000 of the head, out-of-order drop attempts; oracle out(e)=e-|W<e|; "+
 		"non-trivial = >=1 withheld packet and >=1 late or duplicate arrival after it that was forwarded; distinct by action list")
 
+// c01History draws and runs one arrival history against a fresh Map.
+func c01History(t *rapid.T, excludeD13 bool) (*c01Model, string, int, int) {
+	s := &c01Model{m: &Map{}, wset: map[int]bool{}, fwd: map[int]uint16{}}
+	startClass := rapid.IntRange(0, 9).Draw(t, "startClass")
+	var st int
+	switch {
+	case startClass == 0:
+		st = rapid.IntRange(57345, 65535).Draw(t, "start") // top eighth
+	case startClass == 1:
+		st = rapid.IntRange(65536-40, 65535).Draw(t, "start")
+	case startClass == 2:
+		st = rapid.IntRange(32768-5, 32768+5).Draw(t, "start")
+	default:
+		st = rapid.IntRange(0, 65535).Draw(t, "start")
+	}
+	st += 65536 // keep extended numbers positive when looking back
+	s.start, s.next = st, st
+	s.pid = rapid.IntRange(0, 32767).Draw(t, "pid")
+	var canon strings.Builder
+	fmt.Fprintf(&canon, "s%d;", st)
+	nsteps := rapid.IntRange(1, 25).Draw(t, "nsteps")
+	sinceChange := 0 // in-order packets since the last offset change (for the D13 exclusion)
+	excluded := 0
+	for i := 0; i < nsteps; i++ {
+		op := rapid.SampledFrom([]string{"run", "run", "run", "skip", "late", "late", "dup", "dupW", "badDrop"}).Draw(t, "op")
+		if len(s.fwd)+len(s.w) == 0 {
+			op = "run" // the first arrival defines the start of the stream
+		}
+		switch op {
+		case "run":
+			var n int
+			switch rapid.IntRange(0, 19).Draw(t, "len") {
+			case 0:
+				n = rapid.IntRange(600, 40000).Draw(t, "n")
+			case 1, 2, 3:
+				n = rapid.IntRange(30, 600).Draw(t, "n")
+			default:
+				n = rapid.IntRange(1, 30).Draw(t, "n")
+			}
+			pat := rapid.SampledFrom([]string{"none", "p1", "p30", "p90", "periodic", "burst"}).Draw(t, "pat")
+			if rapid.IntRange(0, 11).Draw(t, "quiet") == 0 {
+				// one interval that ages past the 32768 half-space
+				n = rapid.IntRange(30000, 42000).Draw(t, "qn")
+				pat = "none"
+			}
+			a := rapid.IntRange(1, 4).Draw(t, "a")
+			b := rapid.IntRange(a+1, 9).Draw(t, "b")
+			bits := rapid.Uint64().Draw(t, "bits")
+			x := bits | 1
+			if n > 600 {
+				s.longRun++
+			}
+			fmt.Fprintf(&canon, "r%d%s%d%d%x;", n, pat, a, b, bits&0xffff)
+			s.logf("run n=%d pat=%s a=%d b=%d from e=%d", n, pat, a, b, s.next)
+			for k := 0; k < n; k++ {
+				x ^= x << 13
+				x ^= x >> 7
+				x ^= x << 17
+				r := int(x>>11) % 100
+				var drop bool
+				switch pat {
+				case "p1":
+					drop = r < 1
+				case "p30":
+					drop = r < 30
+				case "p90":
+					drop = r < 90
+				case "periodic":
+					drop = k%b < a
+				case "burst":
+					drop = (k/int(5+bits%40))%2 == 1
+				}
+				if excludeD13 && sinceChange >= 24000 {
+					// known finding C01:stale-interval: keep every offset interval
+					// shorter than 24000 packets by construction
+					if !drop {
+						drop = true
+						excluded++
+					}
+				}
+				before := len(s.w)
+				s.arrive(t, s.next, drop)
+				if len(s.w) != before {
+					sinceChange = 0
+				} else {
+					sinceChange++
+				}
+			}
+		case "skip":
+			k := rapid.IntRange(1, 500).Draw(t, "k")
+			fmt.Fprintf(&canon, "k%d;", k)
+			s.logf("skip %d lost then arrival of e=%d", k, s.next+k)
+			s.arrive(t, s.next+k, rapid.Bool().Draw(t, "wantDrop"))
+			sinceChange += k + 1
+		case "late":
+			if len(s.missing) == 0 {
+				continue
+			}
+			j := rapid.IntRange(0, len(s.missing)-1).Draw(t, "j")
+			e := s.missing[j]
+			if s.next-e > 8000 {
+				continue
+			}
+			s.missing = append(s.missing[:j], s.missing[j+1:]...)
+			fmt.Fprintf(&canon, "l%d;", s.next-e)
+			s.logf("late arrival of lost e=%d (head-%d)", e, s.next-e)
+			s.arrive(t, e, rapid.Bool().Draw(t, "wantDrop"))
+		case "dup":
+			back := rapid.IntRange(1, 8000).Draw(t, "back")
+			if rapid.Bool().Draw(t, "near") {
+				back = 1 + back%64
+			}
+			e := s.next - back
+			if e < s.start {
+				continue
+			}
+			fmt.Fprintf(&canon, "d%d;", back)
+			s.logf("duplicate of e=%d (head-%d)", e, back)
+			s.arrive(t, e, rapid.Bool().Draw(t, "wantDrop"))
+		case "dupW":
+			if len(s.w) == 0 {
+				continue
+			}
+			j := len(s.w) - 1 - rapid.IntRange(0, min(len(s.w)-1, 50)).Draw(t, "j")
+			e := s.w[j]
+			if s.next-e > 8000 {
+				continue
+			}
+			// neighbours of withheld packets too
+			e += rapid.IntRange(-1, 1).Draw(t, "nb")
+			if e < s.start || e >= s.next {
+				continue
+			}
+			fmt.Fprintf(&canon, "w%d;", s.next-e)
+			s.logf("duplicate near withheld e=%d (head-%d)", e, s.next-e)
+			s.arrive(t, e, rapid.Bool().Draw(t, "wantDrop"))
+		case "badDrop":
+			d := rapid.IntRange(1, 300).Draw(t, "d")
+			if rapid.Bool().Draw(t, "ahead") {
+				d = -d
+			}
+			e := s.next - d
+			if e < s.start {
+				continue
+			}
+			fmt.Fprintf(&canon, "b%d;", d)
+			s.logf("drop attempt on non-next e=%d (next=%d)", e, s.next)
+			if s.m.Drop(uint16(e), uint16(s.pid+(e-s.start)/3)&0x7FFF) {
+				s.withhold(t, e)
+			}
+		}
+	}
+	return s, canon.String(), startClass, excluded
+}
+
 func TestVerif_C01_PacketmapModel(t *testing.T) {
 	defer c01Rec.Flush()
 	excludeD13 := verifkit.KnownActive("C01:stale-interval")
 	rapid.Check(t, func(t *rapid.T) {
-		s := &c01Model{m: &Map{}, wset: map[int]bool{}, fwd: map[int]uint16{}}
-		startClass := rapid.IntRange(0, 9).Draw(t, "startClass")
-		var st int
-		switch {
-		case startClass == 0:
-			st = rapid.IntRange(57345, 65535).Draw(t, "start") // top eighth
-		case startClass == 1:
-			st = rapid.IntRange(65536-40, 65535).Draw(t, "start")
-		case startClass == 2:
-			st = rapid.IntRange(32768-5, 32768+5).Draw(t, "start")
-		default:
-			st = rapid.IntRange(0, 65535).Draw(t, "start")
-		}
-		st += 65536 // keep extended numbers positive when looking back
-		s.start, s.next = st, st
-		s.pid = rapid.IntRange(0, 32767).Draw(t, "pid")
-		var canon strings.Builder
-		fmt.Fprintf(&canon, "s%d;", st)
-		nsteps := rapid.IntRange(1, 25).Draw(t, "nsteps")
-		sinceChange := 0 // in-order packets since the last offset change (for the D13 exclusion)
-		excluded := 0
-		for i := 0; i < nsteps; i++ {
-			op := rapid.SampledFrom([]string{"run", "run", "run", "skip", "late", "late", "dup", "dupW", "badDrop"}).Draw(t, "op")
-			if len(s.fwd)+len(s.w) == 0 {
-				op = "run" // the first arrival defines the start of the stream
-			}
-			switch op {
-			case "run":
-				var n int
-				switch rapid.IntRange(0, 19).Draw(t, "len") {
-				case 0:
-					n = rapid.IntRange(600, 40000).Draw(t, "n")
-				case 1, 2, 3:
-					n = rapid.IntRange(30, 600).Draw(t, "n")
-				default:
-					n = rapid.IntRange(1, 30).Draw(t, "n")
-				}
-				pat := rapid.SampledFrom([]string{"none", "p1", "p30", "p90", "periodic", "burst"}).Draw(t, "pat")
-				if rapid.IntRange(0, 11).Draw(t, "quiet") == 0 {
-					// one interval that ages past the 32768 half-space
-					n = rapid.IntRange(30000, 42000).Draw(t, "qn")
-					pat = "none"
-				}
-				a := rapid.IntRange(1, 4).Draw(t, "a")
-				b := rapid.IntRange(a+1, 9).Draw(t, "b")
-				bits := rapid.Uint64().Draw(t, "bits")
-				x := bits | 1
-				if n > 600 {
-					s.longRun++
-				}
-				fmt.Fprintf(&canon, "r%d%s%d%d%x;", n, pat, a, b, bits&0xffff)
-				s.logf("run n=%d pat=%s a=%d b=%d from e=%d", n, pat, a, b, s.next)
-				for k := 0; k < n; k++ {
-					x ^= x << 13
-					x ^= x >> 7
-					x ^= x << 17
-					r := int(x>>11) % 100
-					var drop bool
-					switch pat {
-					case "p1":
-						drop = r < 1
-					case "p30":
-						drop = r < 30
-					case "p90":
-						drop = r < 90
-					case "periodic":
-						drop = k%b < a
-					case "burst":
-						drop = (k/int(5+bits%40))%2 == 1
-					}
-					if excludeD13 && sinceChange >= 24000 {
-						// known finding C01:stale-interval: keep every offset interval
-						// shorter than 24000 packets by construction
-						if !drop {
-							drop = true
-							excluded++
-						}
-					}
-					before := len(s.w)
-					s.arrive(t, s.next, drop)
-					if len(s.w) != before {
-						sinceChange = 0
-					} else {
-						sinceChange++
-					}
-				}
-			case "skip":
-				k := rapid.IntRange(1, 500).Draw(t, "k")
-				fmt.Fprintf(&canon, "k%d;", k)
-				s.logf("skip %d lost then arrival of e=%d", k, s.next+k)
-				s.arrive(t, s.next+k, rapid.Bool().Draw(t, "wantDrop"))
-				sinceChange += k + 1
-			case "late":
-				if len(s.missing) == 0 {
-					continue
-				}
-				j := rapid.IntRange(0, len(s.missing)-1).Draw(t, "j")
-				e := s.missing[j]
-				if s.next-e > 8000 {
-					continue
-				}
-				s.missing = append(s.missing[:j], s.missing[j+1:]...)
-				fmt.Fprintf(&canon, "l%d;", s.next-e)
-				s.logf("late arrival of lost e=%d (head-%d)", e, s.next-e)
-				s.arrive(t, e, rapid.Bool().Draw(t, "wantDrop"))
-			case "dup":
-				back := rapid.IntRange(1, 8000).Draw(t, "back")
-				if rapid.Bool().Draw(t, "near") {
-					back = 1 + back%64
-				}
-				e := s.next - back
-				if e < s.start {
-					continue
-				}
-				fmt.Fprintf(&canon, "d%d;", back)
-				s.logf("duplicate of e=%d (head-%d)", e, back)
-				s.arrive(t, e, rapid.Bool().Draw(t, "wantDrop"))
-			case "dupW":
-				if len(s.w) == 0 {
-					continue
-				}
-				j := len(s.w) - 1 - rapid.IntRange(0, min(len(s.w)-1, 50)).Draw(t, "j")
-				e := s.w[j]
-				if s.next-e > 8000 {
-					continue
-				}
-				// neighbours of withheld packets too
-				e += rapid.IntRange(-1, 1).Draw(t, "nb")
-				if e < s.start || e >= s.next {
-					continue
-				}
-				fmt.Fprintf(&canon, "w%d;", s.next-e)
-				s.logf("duplicate near withheld e=%d (head-%d)", e, s.next-e)
-				s.arrive(t, e, rapid.Bool().Draw(t, "wantDrop"))
-			case "badDrop":
-				d := rapid.IntRange(1, 300).Draw(t, "d")
-				if rapid.Bool().Draw(t, "ahead") {
-					d = -d
-				}
-				e := s.next - d
-				if e < s.start {
-					continue
-				}
-				fmt.Fprintf(&canon, "b%d;", d)
-				s.logf("drop attempt on non-next e=%d (next=%d)", e, s.next)
-				if s.m.Drop(uint16(e), uint16(s.pid+(e-s.start)/3)&0x7FFF) {
-					s.withhold(t, e)
-				}
-			}
-		}
+		s, canon, startClass, excluded := c01History(t, excludeD13)
+		st := s.start
 		nt := len(s.w) > 0 && (s.lateOK+s.dupOK) > 0
-		c01Rec.Case(nt, canon.String(), map[string]any{"start": st - 65536, "withheld": len(s.w), "forwarded": len(s.fwd),
+		c01Rec.Case(nt, canon, map[string]any{"start": st - 65536, "withheld": len(s.w), "forwarded": len(s.fwd),
 			"late_forwarded": s.lateOK, "dups_same_number": s.dupOK, "not_forwarded_late": s.lateMiss, "ops": s.log})
 		c01Rec.ClassIf(s.wrapped == 1, "crossed_16bit_wrap")
 		c01Rec.ClassIf(startClass == 0, "start_in_top_eighth")
@@ -312,5 +319,76 @@ func TestVerif_C01_PacketmapModel(t *testing.T) {
 		c01Rec.ClassIf(s.lateOK > 0, "late_forwarded")
 		c01Rec.ClassIf(s.dupOK > 0, "dup_same_number")
 		c01Rec.ClassN("excluded_known_stale_interval", excluded)
+	})
+}
+
+var c03Rec = verifkit.New("TestVerif_C03_ReverseModel",
+	"the C01 histories, then Reverse(x) for outgoing numbers x drawn from: numbers forwarded within the last 8000 source packets, "+
+		"the numbers just before/after withheld packets, the head; oracle: Reverse(x) is either refused or names a source packet that was "+
+		"not withheld and whose forwarded number is x (C01 model); non-trivial = accepted lookup of a number whose offset is non-zero; distinct by history + lookups")
+
+func TestVerif_C03_ReverseModel(t *testing.T) {
+	defer c03Rec.Flush()
+	excludeD13 := verifkit.KnownActive("C01:stale-interval")
+	rapid.Check(t, func(t *rapid.T) {
+		s, canon, _, _ := c01History(t, excludeD13)
+		// candidate source packets: forwarded within the last 8000
+		var recent []int
+		for e := range s.fwd {
+			if s.next-e <= 8000 {
+				recent = append(recent, e)
+			}
+		}
+		sort.Ints(recent)
+		if len(recent) == 0 {
+			c03Rec.Case(false, canon, nil)
+			return
+		}
+		nlook := rapid.IntRange(1, 40).Draw(t, "nlook")
+		shifted, refused := 0, 0
+		var looks []string
+		for i := 0; i < nlook; i++ {
+			var e int
+			switch rapid.IntRange(0, 2).Draw(t, "lookClass") {
+			case 0:
+				e = recent[rapid.IntRange(0, len(recent)-1).Draw(t, "ri")]
+			case 1:
+				e = recent[len(recent)-1-rapid.IntRange(0, min(len(recent)-1, 30)).Draw(t, "near")]
+			default:
+				// the forwarded neighbour of a withheld packet
+				if len(s.w) == 0 {
+					e = recent[len(recent)-1]
+				} else {
+					w := s.w[len(s.w)-1-rapid.IntRange(0, min(len(s.w)-1, 40)).Draw(t, "wi")]
+					e = w + rapid.SampledFrom([]int{-1, 1}).Draw(t, "side")
+				}
+				if _, ok := s.fwd[e]; !ok || s.next-e > 8000 {
+					e = recent[len(recent)-1]
+				}
+			}
+			x := s.fwd[e]
+			ok, src, _ := s.m.Reverse(x)
+			if !ok {
+				refused++
+				continue
+			}
+			// extend src to the candidate nearest e
+			se := e + int(int16(src-uint16(e)))
+			if s.wset[se] {
+				t.Fatalf("Reverse(%d) names source packet %d, which was withheld (the packet sent under %d was %d)", x, se, x, e)
+			}
+			if se != e {
+				t.Fatalf("Reverse(%d) = %d (e=%d), but the packet sent under number %d was e=%d (seq %d)", x, src, se, x, e, uint16(e))
+			}
+			if uint16(e) != x {
+				shifted++
+			}
+			looks = append(looks, fmt.Sprintf("%d->%d", x, src))
+		}
+		c03Rec.Case(shifted > 0, canon+strings.Join(looks, ","), map[string]any{"start": s.start - 65536, "withheld": len(s.w),
+			"forwarded": len(s.fwd), "lookups": looks, "ops": s.log})
+		c03Rec.ClassIf(refused > 0, "some_lookups_refused")
+		c03Rec.ClassIf(shifted > 0, "lookup_with_offset")
+		c03Rec.ClassIf(s.next-s.start > 32768, "history_longer_than_32768")
 	})
 }
